@@ -83,7 +83,7 @@ func compare(c *drv.Ctx, i int64, fam, what string, k *keys, pkb []byte, msg, si
 type corpusEntry struct{ Seed, Msg, Kind string }
 
 func loadCorpus(kind string) []corpusEntry {
-	f, err := os.Open("/verif/corpus/c07.jsonl")
+	f, err := os.Open(drv.CorpusPath("c07.jsonl"))
 	if err != nil {
 		return nil
 	}
